@@ -109,6 +109,7 @@ var (
 		{oAccept, 1, "accept(next height)"},
 		{oGap, 3, "accept(height+3, state-sync target)"},
 		{oGap, 2, "accept(height+2, state-sync target)"},
+		{oAccept, 0, "accept(the last accepted block again: resumed state sync re-delivers its target)"},
 		{oHist, 1, "save-historical(last-1)"},
 		{oHist, 2, "save-historical(last-2)"},
 		{oHist, 4, "save-historical(last-4)"},
